@@ -124,9 +124,42 @@ theorem insertDesc_stable (o : Obj) (l : List Obj) (d : Nat) :
 
 /-! ### offset / maximum: pages partition the list -/
 
+theorem pyIdx_nat (n k : Nat) : pyIdx n (k : Int) = min k n := by
+  unfold pyIdx
+  have : ¬ ((k : Int) < 0) := by omega
+  simp [this]
+
+theorem take_min_length {α} (l : List α) (k : Nat) : l.take (min k l.length) = l.take k := by
+  by_cases h : k ≤ l.length
+  · rw [Nat.min_eq_left h]
+  · rw [Nat.min_eq_right (by omega), List.take_of_length_le (Nat.le_refl _), List.take_of_length_le (by omega)]
+
+theorem drop_min_length {α} (l : List α) (k : Nat) : l.drop (min k l.length) = l.drop k := by
+  by_cases h : k ≤ l.length
+  · rw [Nat.min_eq_left h]
+  · rw [Nat.min_eq_right (by omega), List.drop_of_length_le (Nat.le_refl _), List.drop_of_length_le (by omega)]
+
+theorem take_drop_eq {α} (l : List α) (off n : Nat) : (l.take (off + n)).drop off = (l.drop off).take n := by
+  induction l generalizing off with
+  | nil => simp
+  | cons x xs ih =>
+    cases off with
+    | zero => simp
+    | succ k =>
+      rw [show k + 1 + n = (k + n) + 1 by omega]
+      simp only [List.take_succ_cons, List.drop_succ_cons]
+      exact ih k
+
 theorem slice_nonneg {α} (l : List α) (off n : Nat) :
     slice l (some (off : Int)) (some (n : Int)) = (l.drop off).take n := by
-  simp [slice]
+  simp only [slice, pySlice]
+  rw [show ((off : Int) + (n : Int)) = ((off + n : Nat) : Int) by simp, pyIdx_nat, pyIdx_nat]
+  rw [take_min_length]
+  rw [← take_drop_eq]
+  by_cases h : off ≤ l.length
+  · rw [Nat.min_eq_left h]
+  · rw [Nat.min_eq_right (by omega)]
+    rw [List.drop_of_length_le (by simp; omega), List.drop_of_length_le (by simp; omega)]
 
 /-- consecutive pages concatenate to the bigger page: no element lost, none repeated -/
 theorem locate_pages_partition {α} (l : List α) (off n m : Nat) :
@@ -145,8 +178,12 @@ theorem locate_pages_partition {α} (l : List α) (off n m : Nat) :
       rw [show k + 1 + m = (k + m) + 1 by omega, List.take_succ_cons, ih]
 
 theorem slice_all {α} (l : List α) : slice l none none = l := by simp [slice]
-theorem slice_offset_only {α} (l : List α) (off : Nat) : slice l (some (off : Int)) none = l.drop off := by simp [slice]
-theorem slice_max_only {α} (l : List α) (n : Nat) : slice l none (some (n : Int)) = l.take n := by simp [slice]
+theorem slice_offset_only {α} (l : List α) (off : Nat) : slice l (some (off : Int)) none = l.drop off := by
+  simp only [slice, pyIdx_nat]
+  exact drop_min_length l off
+theorem slice_max_only {α} (l : List α) (n : Nat) : slice l none (some (n : Int)) = l.take n := by
+  simp only [slice, pyIdx_nat]
+  exact take_min_length l n
 
 /-! ### what `matches` means, filter by filter (when the filter is applicable and evaluable) -/
 
